@@ -261,6 +261,14 @@ fn print_choices_json(choices: &[std::rc::Rc<bladeink::choice::Choice>]) {
     println!("{{\"choices\": [{}]}}", parts.join(", "));
 }
 
+/// JSON does not allow raw control characters (U+0000..U+001F) inside a string.
+const CONTROL_ESCAPES: [&str; 32] = [
+    "\\u0000", "\\u0001", "\\u0002", "\\u0003", "\\u0004", "\\u0005", "\\u0006", "\\u0007",
+    "\\b", "\\t", "\\n", "\\u000b", "\\f", "\\r", "\\u000e", "\\u000f",
+    "\\u0010", "\\u0011", "\\u0012", "\\u0013", "\\u0014", "\\u0015", "\\u0016", "\\u0017",
+    "\\u0018", "\\u0019", "\\u001a", "\\u001b", "\\u001c", "\\u001d", "\\u001e", "\\u001f",
+];
+
 /// Escape a string for inclusion inside a JSON string value.
 fn escape_json_string(s: &str) -> String {
     let mut out = String::with_capacity(s.len());
@@ -271,6 +279,7 @@ fn escape_json_string(s: &str) -> String {
             '\n' => out.push_str("\\n"),
             '\r' => out.push_str("\\r"),
             '\t' => out.push_str("\\t"),
+            c if (c as u32) < 0x20 => out.push_str(CONTROL_ESCAPES[c as usize]),
             c => out.push(c),
         }
     }
